@@ -194,6 +194,9 @@ def judge_c04(ctx, idx, op, impl, mi, ms, reason):
     f = []
     if icls not in ("ok", "err"):
         f.append(Finding("property", idx, "decoding (or displaying / inspecting / re-encoding what was returned) ended in `%s`" % icls, expected="ok or err", observed=impl, name="C04_no_panic"))
+    elif impl.endswith(" slow"):
+        ctx.count("over_time_budget")
+        f.append(Finding("property", idx, "decoding (with display, inspection and re-encoding) a frame of %d octets exceeded the time budget of 2 s + 3 s per MiB: not bounded (linear) time" % ((len(op[1]) // 2) if len(op) > 1 else 0), expected="about 0.1 s per MiB", observed=impl, name="C04_fuel"))
     elif impl != mi:
         # Ok-vs-Err is not C04's business (scope discipline); recorded, never an alarm
         ctx.count("class_differs_from_model")
